@@ -55,6 +55,7 @@ OP_WEIGHTS = {
     "add": 4, "sub": 3, "restep": 3, "reversed": 4, "copy": 3, "from_ends": 5, "pow": 3, "resolve": 4,
     "distance": 3, "index": 4, "slice": 4, "contains": 2, "eq": 2, "encompassing": 2, "from_until": 2,
     "p_arith": 5, "p_compare": 4, "p_hash": 3, "p_calendar": 5, "p_keyword": 4, "p_mix": 3, "p_span_ops": 2,
+    "resolve_mix": 2,
 }
 MUTATING = {"reverse", "shift", "shift_start", "shift_end"}
 MAX_SPAN = 400      # periods; longer spans only make the per-step full comparison slow
@@ -331,6 +332,18 @@ class DatesWorld(World):
         a = (near[0] + rng.randint(-12, 12)) if near else self._rand_serial(rng, f)
         return {"op": "resolve", "out": [self._name("s")], "args": {"s": s, "f": f, "cs": a, "ce": a + rng.randint(0, 9),
                                                                    "ctx": rng.choice(["context", "series"])}}
+
+    def _gen_resolve_mix(self, actor, rng):
+        """A span with one concrete and one open end point resolved against a context of another frequency: must be rejected."""
+        def half_open(m):
+            return isinstance(m.a, (tuple, list)) != isinstance(m.b, (tuple, list))
+        s = self._pick_span(rng, actor, half_open)
+        if s is None:
+            return None
+        m = self.spans[s][1]
+        g = rng.choice([x for x in cal.ALL_FREQS if x != m.f])
+        a = self._rand_serial(rng, g)
+        return {"op": "resolve_mix", "args": {"s": s, "g": g, "cs": a, "ce": a + rng.randint(0, 6), "ctx": rng.choice(["context", "series"])}}
 
     def _gen_distance(self, actor, rng):
         s = self._pick_span(rng, actor, lambda m: not m.contextual)
@@ -740,6 +753,24 @@ class DatesWorld(World):
         if m.contextual:
             self.probes["open_span_resolved"] += 1
         return "ok"
+
+    def _do_resolve_mix(self, step, a):
+        real, m = self.spans[a["s"]]
+        g, cs, ce = a["g"], a["cs"], a["ce"]
+        if a["ctx"] == "context":
+            from irispie.dates import ResolutionContext
+            ctx = ResolutionContext(P(g, cs), P(g, ce))
+        else:
+            ctx = ir.Series(start=P(g, cs), values=tuple(float(i + 1) for i in range(ce - cs + 1)))
+        try:
+            res = real.resolve(ctx)
+        except Exception as e:
+            strip_traceback(e)
+            self.probes["mixed_frequency_rejected"] += 1
+            self._after("resolve_mix." + a["ctx"], "")
+            return "rejected:" + type(e).__name__
+        raise Violation("mixfreq_not_rejected", "resolve_mix." + a["ctx"], m.f + g, "",
+                        f"a span with a {m.f} end point was resolved against a {g} context without an error (result {res!r})")
 
     def _do_encompassing(self, step, a):
         real, m = self.spans[a["s"]]
